@@ -1065,8 +1065,14 @@ impl<'a, 'b, W: Write> Serializer for &'a mut YamlSerializer<'b, W> {
             let first_line_spaces = crate::wrapping::first_line_leading_spaces(content_trimmed);
             let needs_indicator = first_line_spaces > 0;
 
-            // If N > 9, YAML parsers reject it. Fall back to quoting.
-            if needs_indicator && indent_n > 9 {
+            // The indicator counts from the indentation of the parent node, not from the left
+            // margin. At the top level the two coincide; below it the offset is one indentation
+            // step as long as keys and dashes sit on multiples of the step, which an inline map
+            // after a dash (key at dash + 2) only guarantees for a step of 2. Otherwise, and if
+            // N > 9 (rejected by YAML parsers), fall back to quoting.
+            let indent_n = if base == 0 { indent_n } else { self.indent_step };
+            let relative_known = base == 0 || self.indent_step == 2;
+            if needs_indicator && (indent_n > 9 || !relative_known) {
                 // Reset state and fall through to quoted string handling
                 self.pending_str_style = None;
                 self.pending_str_from_auto = false;
